@@ -84,10 +84,9 @@ def last_conditions(ea: EnvAnalysis) -> List[T]:
         if kinds[0] == {"LAST"} and kinds[1] <= {"MID", "LAST"}:
             return disjuncts(pred)
         if kinds[1] == {"LAST"} and kinds[0] <= {"MID", "LAST"}:
-            p = strip_cast(pred)
-            if p.kind == "un" and p.args[0] in ("~", "not"):
-                return disjuncts(p.args[1])
-            return []
+            # the second branch is the LAST one: LAST when the predicate is false (carry_on = valid & ~finished)
+            from ..normal import neg
+            return disjuncts(neg(pred))
         raise AnalysisError(f"{name}.step: branches of the final selection have step types {kinds}")
     if how == "switch":
         # index = a + 2*b  (either order), a, b boolean
